@@ -74,7 +74,7 @@ func r141(c *Ctx) {
 	for _, cs := range callsToName(ds, "os.Remove") {
 		extra := 0
 		for _, ce := range dominatingConds(cs.instr.Block()) {
-			cm, ok := asCmp(ce.cond, ce.taken)
+			cm, ok := ce.asCmp()
 			if ok && cm.op == token.NEQ && isLoadOfField(cm.x, diskF) && isNilConst(cm.y) {
 				continue
 			}
@@ -196,7 +196,7 @@ func r142(c *Ctx) {
 		_, onErr := nilKnowledge(s.instr, sameAs(e))
 		isTooBig := false
 		for _, ce := range dominatingConds(s.instr.Block()) {
-			if cm, ok := asCmp(ce.cond, ce.taken); ok && cm.op == token.EQL && ((cm.x == e && isLoadOfGlobal(cm.y, tooBig)) || (cm.y == e && isLoadOfGlobal(cm.x, tooBig))) {
+			if cm, ok := ce.asCmp(); ok && cm.op == token.EQL && ((cm.x == e && isLoadOfGlobal(cm.y, tooBig)) || (cm.y == e && isLoadOfGlobal(cm.x, tooBig))) {
 				isTooBig = true
 			}
 			if call, ok := ce.cond.(*ssa.Call); ok && ce.taken && calleeName(call.Common()) == "errors.Is" && isLoadOfGlobal(call.Call.Args[1], tooBig) {
@@ -391,7 +391,7 @@ func r144(c *Ctx, rule string) {
 		// on the branch where maxBytes>0 && total+len>maxBytes
 		var gt0, over bool
 		for _, ce := range dominatingConds(ret.Block()) {
-			cm, ok := asCmp(ce.cond, ce.taken)
+			cm, ok := ce.asCmp()
 			if !ok {
 				continue
 			}
@@ -407,7 +407,7 @@ func r144(c *Ctx, rule string) {
 		// no further condition may exempt a write from the limit
 		extra := 0
 		for _, ce := range dominatingConds(ret.Block()) {
-			cm, ok := asCmp(ce.cond, ce.taken)
+			cm, ok := ce.asCmp()
 			if ok && (isLoadOfField(cm.x, maxF) || isLoadOfField(cm.y, maxF)) {
 				continue
 			}
@@ -432,7 +432,7 @@ func r144(c *Ctx, rule string) {
 			}
 		} else if arg == ssa.Value(w.Params[1]) {
 			for _, ce := range dominatingConds(cs.instr.Block()) {
-				cm, ok := asCmp(ce.cond, ce.taken)
+				cm, ok := ce.asCmp()
 				if ok && (cm.op == token.LEQ || cm.op == token.LSS) && isLoadOfField(cm.y, maxMemF) {
 					if bo, ok := cm.x.(*ssa.BinOp); ok && bo.Op == token.ADD && (isLoadOfField(bo.X, memWrittenF) || isLoadOfField(bo.Y, memWrittenF)) {
 						bounded, how = true, "guard memBytesWritten+len(p) <= maxMemBytes"
@@ -571,7 +571,7 @@ func r145(c *Ctx) {
 				on = true
 				continue
 			}
-			if cm, ok := asCmp(ce.cond, ce.taken); ok && isErrorType(cm.x.Type()) {
+			if cm, ok := ce.asCmp(); ok && isErrorType(cm.x.Type()) {
 				continue
 			}
 			extra++
